@@ -367,7 +367,7 @@ func cyclePath(w *World, r *Report, ro *Roles, rule string) {
 				started = true
 			case e.Kind == "go":
 				spawned = true
-			case e.Kind == "call" && ro.reachesDequeue(e.Callee):
+			case e.Kind == "call" && ro.alwaysDequeues(e.Callee, 0):
 				dq = true
 			}
 		}
